@@ -34,6 +34,7 @@ def build_b0(spec):
 def strategy(tier, unit):
     return st.fixed_dictionaries({"rot": S.rot_specs(1), "cell": S.cells(), "hkl": S.hkls(20),
                                   "mod": st.sampled_from(["tools", "laue"]), "b0": _b0(),
+                                  "as": st.sampled_from(["array", "array", "nested-list", "int-if-integral"]),
                                   "prev": st.one_of(st.none(), st.fixed_dictionaries({"rot": S.rot_specs(1), "cell": st.one_of(S.cells(), S.logfl(1e-9, 1e-3)), "as_array": st.booleans()}))})
 
 
@@ -77,8 +78,18 @@ def check(case, ctx):
         holder[:] = cell
         cell_arg = holder
         ctx.event("previous-grain-with-same-cell-object")
+    # how the caller types its matrices: read-only float arrays, nested Python lists, or integers for an axis-aligned U
+    how = case.get("as", "array")
+    def typed(Mx):
+        if how == "nested-list":
+            return [[float(x) for x in row] for row in np.asarray(Mx)]
+        if how == "int-if-integral" and np.array_equal(np.asarray(Mx), np.round(np.asarray(Mx))):
+            return np.round(np.asarray(Mx)).astype(int)
+        return Mx
+    if how != "array":
+        ctx.event("matrices-typed-as:" + how)
     B = np.asarray(mod.form_b_mat(cell_arg), float)
-    ubi = O.ro(mod.u_to_ubi(U0, cell_arg))
+    ubi = O.ro(mod.u_to_ubi(typed(U0), cell_arg))
     # UBI.(U.B.hkl) = f*hkl
     g = U0 @ B @ h
     ctx.near("UBI.g=f.h", O.maxabs(ubi @ g - f * h) / (f * np.linalg.norm(h)), TOL, "ubi-times-g",
@@ -90,11 +101,11 @@ def check(case, ctx):
     # and the lattice vectors expressed in the rotated frame: UBI = (U A)^-1-free statement: UBI.U = inv(B)*f
     ctx.near("UBI.U.B=f.I", O.maxabs(ubi @ U0 @ B - f * np.eye(3)), 1e-8, "ubi-inverse", "%s: UBI.U.B != f.I" % m)
     # decompose again
-    U1 = np.asarray(mod.ubi_to_u(ubi), float)
+    U1 = np.asarray(mod.ubi_to_u(typed(ubi)), float)
     ctx.near("ubi_to_u", O.maxabs(U1 - U0), TOL, "ubi_to_u", "%s: ubi_to_u(u_to_ubi(U)) != U (max dev %g)" % (m, O.maxabs(U1 - U0)))
-    c1 = mod.ubi_to_cell(ubi)
+    c1 = mod.ubi_to_cell(typed(ubi))
     ctx.near("ubi_to_cell", _cell_diff(c1, cell), 1e-8, "ubi_to_cell", "%s: ubi_to_cell %r != %r" % (m, list(c1), cell))
-    U2, B2 = mod.ubi_to_u_b(ubi)
+    U2, B2 = mod.ubi_to_u_b(typed(ubi))
     U2, B2 = np.asarray(U2, float), np.asarray(B2, float)
     ctx.near("ubi_to_u_b/U", O.maxabs(U2 - U0), TOL, "ubi_to_u_b/U", "%s: ubi_to_u_b U differs" % m)
     ctx.near("ubi_to_u_b/B", O.maxabs(B2 - B) / O.maxabs(B), TOL, "ubi_to_u_b/B", "%s: ubi_to_u_b B differs from form_b_mat" % m)
@@ -106,7 +117,7 @@ def check(case, ctx):
     # QR split of an arbitrary det>0 matrix
     if cond < 1e6:
         UB = O.ro(U0 @ B0)
-        Uq, Bq = mod.ub_to_u_b(UB)
+        Uq, Bq = mod.ub_to_u_b(typed(UB))
         Uq, Bq = np.asarray(Uq, float), np.asarray(Bq, float)
         sc = O.maxabs(B0)
         if not (Bq[1, 0] == 0 and Bq[2, 0] == 0 and Bq[2, 1] == 0) and O.maxabs(np.tril(Bq, -1)) > 1e-12 * sc:
